@@ -103,6 +103,14 @@ def run(ctx) -> None:
                 p = find_path(cfg.entry, cfg.exit_raise, ef)
                 ok = False
                 why.append(f"an Exception can leave {m.name} in non-strict mode: {fmt_path(p)}")
+            # an async processor method is awaited right here, inside its own guard: a coroutine that is
+            # collected and awaited later (gather, tasks) runs outside the guard and its siblings are abandoned
+            # when one of them fails
+            if any(cal.func is not None and cal.func.is_async for cal in db.resolve_call(c, m)) or src(c.func).endswith("_async"):
+                par = getattr(c, "_parent", None)
+                if not isinstance(par, ast.Await):
+                    ok = False
+                    why.append("the processor's coroutine is created here but not awaited inside its guard (deferred to a later gather/task): delivery to the other processors is no longer completed before the call returns")
             if ok and tr is not None and loop is not None:
                 # after a failure control must return to the loop header
                 loop_nodes = cfg.nodes_for(loop)
@@ -270,6 +278,7 @@ def run(ctx) -> None:
 
 DISP = "src/hypergraph/events/dispatcher.py"
 VARIANTS = [
+    Variant("async-delivery-gathered", "src/hypergraph/events/dispatcher.py", chain(replace_once("from __future__ import annotations\n", "from __future__ import annotations\n\nimport asyncio\n"), replace_once("                    await processor.on_event_async(event)", "                    pending.append(processor.on_event_async(event))"), replace_once("    async def emit_async(self, event: Event) -> None:\n        \"\"\"Send *event* to every processor, using async when available.\"\"\"\n", "    async def emit_async(self, event: Event) -> None:\n        pending = []\n")), {"C13.R1"}),
     Variant("emit-narrow-handler", DISP, sub_first(r"(processor\.on_event\(event\)\n            )except Exception:", r"\1except ValueError:"), {"C13.R1"}),
     Variant("emit-async-reraise-always", DISP, sub_once(r"(def emit_async.*?)if self\._strict:\n                    raise", r"\1if self._strict or event is not None:\n                    raise"), {"C13.R1"}),
     Variant("emit-break-after-failure", DISP, sub_once(r"(def emit\(.*?exc_info=True,\n                \))", r"\1\n                break"), {"C13.R1"}),
